@@ -40,7 +40,7 @@ CONFIGS = [
     ("small", 1, {"quick": {"HT_KEYS": 5, "HT_MAXOPS": 0}, "thorough": {"HT_KEYS": 7, "HT_MAXOPS": 0}},
      ["+grow", "+shrink", "+shrink0", "+rehash", "reuse", "+wrap"]),
     # two tables: clone, then the tables diverge
-    ("clone", 2, {"quick": {"HT_KEYS": 3, "HT_MAXOPS": 5}, "thorough": {"HT_KEYS": 3, "HT_MAXOPS": 9}},
+    ("clone", 2, {"quick": {"HT_KEYS": 3, "HT_MAXOPS": 4}, "thorough": {"HT_KEYS": 3, "HT_MAXOPS": 9}},
      ["clone", "totomb"]),
     # equal below the mask of 16 slots, different above it
     ("above", 1, {"thorough": {"HT_KEYS": 5, "HT_MAXOPS": 0}}, ["reuse", "+tomb", "+grow"]),
@@ -48,6 +48,10 @@ CONFIGS = [
     ("spread", 1, {"thorough": {"HT_KEYS": 7, "HT_MAXOPS": 0}}, ["totomb", "tofree", "+grow"]),
     ("smallcollide", 1, {"thorough": {"HT_KEYS": 5, "HT_MAXOPS": 0}}, ["+grow", "+shrink", "reuse", "+wrap"]),
 ]
+
+# environment for every TLC run of the model, e.g. {"HT_VARIANT_drain_all": "1"} when raw.rs was changed
+# so that dropping a Drain marks all remaining slots FREE (the model is a transcription: keep it in step)
+MODEL_VARIANT = {k: v for k, v in os.environ.items() if k.startswith("HT_VARIANT_")}
 
 RE_LAST_ACTION = re.compile(r"^State \d+: <(\w+)[ (]")
 
@@ -74,39 +78,56 @@ def _mc_once(cfg, env, workers, timeout):
 
 
 def _model_check(ck, name, env, workers, timeout):
-    """model-check one configuration; on a violation: report it, disable the call it is
-    attributed to and repeat.  Returns (paths, counterexamples, hash values, disabled calls)"""
+    """model-check one configuration.  On a violation: report it, then go on looking for
+    violations behind it: first with the violated invariant switched off (so that the call
+    stays in the exported behaviours), and if that run is violated too, without the call the
+    first violation is attributed to (all invariants on).
+    Returns (paths, counterexamples, hash values, disabled calls, skipped invariants)"""
     cfg = "MC_HashTbl_" + name
-    disabled, cex, hashes, paths = [], [], None, []
-    for _ in range(4):
+    disabled, skipped, cex, hashes, paths = [], [], [], None, []
+    first_op, reported = None, set()
+    for attempt in range(4):
         e = {k: str(v) for k, v in env.items()}
+        e.update(MODEL_VARIANT)
         e["HT_EXPORT"] = "1"
         for op in disabled:
             e["HT_DISABLE_" + op] = "1"
+        for inv in skipped:
+            e["HT_SKIP_" + inv] = "1"
         res, paths, bad, hashes, last_action = _mc_once(cfg, e, workers, timeout)
         if res["ok"]:
             must = [a for a, op in ACTIONS.items() if op not in disabled and (a != "DoClone" or name == "clone")]
             ck.add_mc(res, must_cover=must)
-            break
-        if not res["violated"]:
-            ck.add_mc(res)          # tool error
+            return paths, cex, hashes, disabled, skipped
+        if not res["violated"] or not bad:
+            ck.add_mc(res)          # tool error, or a violation that is not one of the named invariants
             return None
-        inv = bad[-1][0] if bad else "?"
-        what = "Invariant %s is violated by %s" % (inv, last_action) if bad else res["violated"]
+        inv, calls = bad[-1]
+        what = "Invariant %s is violated by %s" % (inv, last_action)
         res["violated"] = what
-        res["out_tail"] = json.dumps({"disabled_calls": disabled, "hash": hashes,
-                                      "counterexample": bad[-1][1] if bad else None})
+        res["out_tail"] = json.dumps({"disabled_calls": disabled, "skipped_invariants": skipped, "hash": hashes,
+                                      "counterexample": calls})
+        if what in reported:
+            break
+        reported.add(what)
         ck.add_mc(res)
-        ck.cov.setdefault("model_violations", []).append({"cfg": cfg, "what": what, "calls": bad[-1][1] if bad else None})
-        if bad:
-            cex.append(bad[-1][1])
+        ck.cov.setdefault("model_violations", []).append({"cfg": cfg, "what": what, "hash": hashes, "calls": calls})
+        cex.append(calls)
         op = ACTIONS.get(last_action)
-        if op is None or op in disabled or op == "insert":
-            vlib.log("cannot isolate violation of %s by disabling a call" % cfg)
-            return paths, cex, hashes, disabled
-        vlib.log("%s: %s; repeating without `%s`" % (cfg, what, op))
-        disabled.append(op)
-    return paths, cex, hashes, disabled
+        if attempt == 0:
+            first_op = op
+            skipped = [inv]
+            vlib.log("%s: %s; repeating with this invariant switched off" % (cfg, what))
+        elif first_op and first_op not in disabled and first_op != "insert":
+            disabled, skipped = disabled + [first_op], []
+            vlib.log("%s: %s; repeating without the call `%s`" % (cfg, what, first_op))
+        elif op and op not in disabled and op != "insert":
+            disabled = disabled + [op]
+            vlib.log("%s: %s; repeating without the call `%s`" % (cfg, what, op))
+        else:
+            break
+    ck.tool_errors.append("%s: could not complete the model check behind its violations" % cfg)
+    return None
 
 
 def _select(paths, budget, rng, min_per_sit=12):
@@ -161,7 +182,7 @@ def c17(ck, tier, seed):
         "home slots wrapping around the last slot / equal below the mask / spread / MIN_CAP scaled to 4 for growth and "
         "shrinking) refines HashTbl with ProbeTerminates, FreeSound, LoadBound, LenExact, KeysUnique, Reachable, StructOK over "
         "the complete reachable state graph of 4-5 (quick) / 5-7 (thorough) keys (HT_MAXOPS=0: call sequences of any length) "
-        "resp. all sequences of <= 5 / <= 9 calls on two tables with clone; "
+        "resp. all sequences of <= 4 / <= 9 calls on two tables with clone; "
         "T: for every reachable layout the calls reaching it plus a 1/K sample of all transitions are printed by TLC; "
         "replayed on the real RawTable<(u32,u32),S> (S=u32 and usize) with the model's hash values: every situation tag "
         ">= 12 times, then prefix-tree leaves within the budget; audit (get of every key, iter, len) after every mutating call; "
@@ -171,7 +192,7 @@ def c17(ck, tier, seed):
     workers = 8
     binary = vlib.build_harness()
     files, cmds = [], []
-    budget = 45000 if quick else 300000
+    budget = 12000 if quick else 150000
     all_sits = {}
     for (name, ntab, tiers, must_sits) in CONFIGS:
         if tier not in tiers:
@@ -182,7 +203,7 @@ def c17(ck, tier, seed):
         r = _model_check(ck, name, env, workers, 1500 if quick else 3000)
         if r is None:
             continue
-        paths, cex, hashes, disabled = r
+        paths, cex, hashes, disabled, skipped = r
         if hashes is None:
             ck.tool_errors.append("MC_HashTbl_%s: hash values not printed" % name)
             continue
@@ -201,12 +222,12 @@ def c17(ck, tier, seed):
                 f.write(json.dumps({"cfg": name, "hash": hashes, "tabs": ntab, "ops": p}) + "\n")
         ck.cov.setdefault("replay", []).append({"cfg": name, "paths_printed": n_paths, "prefix_tree_leaves": n_leaves,
                                                 "behaviours_replayed": len(chosen) + len(cex),
-                                                "calls": sum(len(p) for p in chosen), "calls_disabled_in_model": disabled})
+                                                "calls": sum(len(p) for p in chosen), "calls_disabled_in_model": disabled, "invariants_switched_off": skipped})
         if len(ck.cov["samples"]) < 2 and chosen:
             ck.sample({"cfg": name, "hash": hashes, "ops": max(chosen, key=len)[:12]})
         for status in (["u32"] if quick and name != "collide" else ["u32", "usize"]):
             od = os.path.join(ck.outdir, "replay-%s-%s" % (name, status))
-            res = vlib.run_driver(binary, "hashtbl-replay", {"behaviours": bpath, "status": status, "seed": seed, "tier": tier}, od)
+            res = vlib.run_driver(binary, "hashtbl-replay", {"behaviours": bpath, "status": status, "seed": seed, "tier": tier, "chunk": 20000}, od)
             files += ck.add_driver(res)
             cmds.append(" ".join(map(str, res["cmd"])))
             for s in res["summaries"]:
@@ -218,7 +239,7 @@ def c17(ck, tier, seed):
     for i in range(nrand):
         od = os.path.join(ck.outdir, "random-%d" % i)
         res = vlib.run_driver(binary, "hashtbl-random", {"seed": seed * 101 + i, "tier": tier,
-                                                          "ops": 20000 if quick else 100000}, od)
+                                                          "ops": 20000 if quick else 100000, "chunk": 20000}, od)
         files += ck.add_driver(res)
         cmds.append(" ".join(map(str, res["cmd"])))
         for s in res["summaries"]:
